@@ -1,6 +1,133 @@
-//! C19 — not implemented yet.
+//! C19 — vector kind/size conversions, swizzles, shuffles, colour helpers keep elements.
+//!
+//! Ground truth everywhere: inputs are built and outputs are read through the public *named fields* of the
+//! vector types (and the `rows` / `cols` fields of matrices), never through the APIs under test.
+//! Element-moving APIs are decided on pairwise distinct opaque terms (`cs::Cs`, a `vkit::Sym` that also
+//! implements `ColorComponent`), i.e. for every input by parametricity; value-dependent colour helpers are
+//! decided on generated values of every `ColorComponent` type against oracles computed in `i128` / `f64`.
+
+pub mod colour;
+pub mod cs;
+pub mod mats;
+pub mod shuffle;
+pub mod tables;
+
+use colour::Comp;
+use std::num::Wrapping;
 use vkit::*;
 
+/// Named colours / `full()` for each of the 18 std component types and the symbolic one: index = type.
+const N_NAMED: u64 = 19;
+fn named_table(i: u64, cx: &mut Cx) -> CaseResult {
+    macro_rules! ty {
+        ($T:ty, $g:expr) => {{
+            let (z, f) = (<$T as Comp>::zero_want(), <$T as Comp>::full_want());
+            sample!(cx, "{}: zero={:?} full={:?} gray level={:?}", <$T as Comp>::NAME, z, f, $g);
+            cx.nontrivial();
+            colour::named_colours::<$T>(cx, <$T as Comp>::NAME, z, f, $g)
+        }};
+    }
+    match i {
+        0 => ty!(f32, 0.3f32),
+        1 => ty!(f64, 0.3f64),
+        2 => ty!(u8, 77u8),
+        3 => ty!(u16, 777u16),
+        4 => ty!(u32, 77_777u32),
+        5 => ty!(u64, 7_777_777_777u64),
+        6 => ty!(i8, 77i8),
+        7 => ty!(i16, 777i16),
+        8 => ty!(i32, 77_777i32),
+        9 => ty!(i64, 7_777_777_777i64),
+        10 => ty!(Wrapping<u8>, Wrapping(77u8)),
+        11 => ty!(Wrapping<u16>, Wrapping(777u16)),
+        12 => ty!(Wrapping<u32>, Wrapping(77_777u32)),
+        13 => ty!(Wrapping<u64>, Wrapping(7_777_777_777u64)),
+        14 => ty!(Wrapping<i8>, Wrapping(77i8)),
+        15 => ty!(Wrapping<i16>, Wrapping(777i16)),
+        16 => ty!(Wrapping<i32>, Wrapping(77_777i32)),
+        17 => ty!(Wrapping<i64>, Wrapping(7_777_777_777i64)),
+        18 => colour::colour_symbolic(0, cx),
+        _ => fail!("named_table: index {} out of range", i),
+    }
+}
+
 pub fn property() -> Property {
-    Property { id: "C19", rule: "", assumptions: &[], checks: Vec::new(), max_discard_frac: 0.2 }
+    let mut checks = Vec::new();
+    macro_rules! index {
+        ($name:expr, $about:expr, $total:expr, $f:expr) => {
+            checks.push(Check { name: $name, about: $about, kind: Kind::Index { total: $total, quick: $total, thorough: $total, f: $f } });
+        };
+    }
+    macro_rules! tape {
+        ($name:expr, $about:expr, $len:expr, $q:expr, $th:expr, $f:expr) => {
+            checks.push(Check { name: $name, about: $about, kind: Kind::Tape { len: $len, quick: $q, thorough: $th, f: $f } });
+        };
+    }
+    use tables::VARIANTS;
+    index!("conv-table", "all 24 From impls between vector types (kind change keeps order, shrinking drops the tail, growing appends T::zero(), (smaller, scalar) appends the scalar, Rgba::from(Rgb) appends full()), From and Into, 8 atom arrangements each",
+        tables::N_CONV * VARIANTS, tables::conv_table);
+    index!("swizzle-table", "yx, zyx, wxyz, wzyx, zyxw, xy, xyz, rgb, all with_x/y/z/w setters (incl. the growing Vec2::with_z/with_w, Vec3::with_w), shuffled_argb/bgra/bgr: exactly the named permutation / replacement",
+        tables::N_SWZ * VARIANTS, tables::swizzle_table);
+    index!("homogeneous-table", "new_point/new_direction/from_point/from_direction (Vec4) and the _2d forms (Vec3) from every argument kind: last coordinate 1 for points, 0 for directions, Vec2 arguments get z = 0, a present last coordinate is replaced",
+        tables::N_HOM * VARIANTS, tables::homogeneous_table);
+    index!("unit-table", "unit_x/y/z/w, unit_*_point and the deprecated direction names (left/right/up/down/forward_lh/forward_rh/back_lh/back_rh and *_point forms) against their documented components, for i32 i64 f32 f64 Rat (u8 and symbolic for the non-negated ones)",
+        tables::N_UNIT_TOTAL, tables::unit_table);
+    index!("shuffle-masks", "all 256 masks x {Vec4, Rgba}: shuffled / shuffle_lo_hi with ShuffleMask4::new, tuple, array, usize; result = (lo[a], lo[b], hi[c], hi[d]); to_indices(new(a,b,c,d)) = (a,b,c,d); each mask also through out-of-range aliases (+4, +8, +12, +usize::MAX-3)",
+        shuffle::N_MASKS, shuffle::shuffle_masks);
+    index!("shuffle-helpers", "shuffled_0101/2323/0022/1133, interleave_0011/2233, shuffle_lo_hi_0101, shuffle_hi_lo_2323 on Vec4 and Rgba against the lane diagrams of their doc comments",
+        shuffle::N_HELPERS * VARIANTS, shuffle::shuffle_helpers);
+    tape!("shuffle-indices", "arbitrary usize index tuples (>= 4, powers of two +-1, usize::MAX): indices are taken modulo 4 by ShuffleMask4::{new, from} and by the shuffles of Vec4 and Rgba",
+        48, 20_000, 1_000_000, shuffle::shuffle_indices);
+    index!("mat-embed-sym", "Mat3::from(Mat2), Mat4::from(Mat2), Mat4::from(Mat3) = block in the identity; Mat2::from(Mat3), Mat2::from(Mat4), Mat3::from(Mat4) = upper-left block; both layouts, symbolic entries",
+        mats::N_MAT_SYM * 4, mats::mat_embed_sym);
+    let me = "embedding commutes with multiplication: MatM::from(m) * grow(v) = grow(m * v) and grow(v) * MatM::from(m) = grow(v * m) for points (1) and directions (0), 2->3, 2->4, 3->4, both layouts; shrinking = upper-left block; round trips; from(A)*from(B) = from(A*B)";
+    tape!("mat-embed-rat", me, 160, 6_000, 300_000, mats::mat_embed_num::<Rat>);
+    tape!("mat-embed-f64", me, 256, 4_000, 200_000, mats::mat_embed_num::<f64>);
+    index!("colour-named-table", "full() = MAX (integers, Wrapping) / 1 (floats); black white red green blue cyan magenta yellow gray grey on Rgb and Rgba (alpha = full) for each of the 18 ColorComponent types of vek and a symbolic one",
+        N_NAMED, named_table);
+    index!("colour-symbolic", "new_opaque/new_transparent/from_opaque/from_transparent/from_translucent, Rgba::from(Rgb), Rgb::from(Rgba), shuffled_*, inverted_rgb = (full - c) per colour lane with alpha untouched, average_rgb = (r+g+b)/3 without alpha, as terms",
+        colour::N_SYM, colour::colour_symbolic);
+    let cv = "generated components: named colours, constructors, Rgb<->Rgba conversions, reorderings, inverted_rgb = full - c per colour lane with alpha kept and inverting twice restores the colour, average_rgb = (r+g+b)/3 ignoring alpha (integer: truncating, oracle in i128; overflow of the documented kind must surface as an overflow panic)";
+    macro_rules! colour {
+        ($name:expr, $T:ty) => {
+            tape!($name, cv, 64, 10_000, 500_000, colour::colour_values::<$T>);
+        };
+    }
+    colour!("colour-f32", f32);
+    colour!("colour-f64", f64);
+    colour!("colour-u8", u8);
+    colour!("colour-u16", u16);
+    colour!("colour-u32", u32);
+    colour!("colour-u64", u64);
+    colour!("colour-i8", i8);
+    colour!("colour-i16", i16);
+    colour!("colour-i32", i32);
+    colour!("colour-i64", i64);
+    colour!("colour-wrapping-u8", Wrapping<u8>);
+    colour!("colour-wrapping-u16", Wrapping<u16>);
+    colour!("colour-wrapping-u32", Wrapping<u32>);
+    colour!("colour-wrapping-u64", Wrapping<u64>);
+    colour!("colour-wrapping-i8", Wrapping<i8>);
+    colour!("colour-wrapping-i16", Wrapping<i16>);
+    colour!("colour-wrapping-i32", Wrapping<i32>);
+    colour!("colour-wrapping-i64", Wrapping<i64>);
+    checks.push(Check {
+        name: "average-u8-all",
+        about: "Rgb/Rgba::<u8>::average_rgb over the 2^24 (r,g,b) triples (sampled in the quick tier, complete in the thorough tier): (r+g+b)/3 truncated when r+g+b <= 255, overflow panic (documented) otherwise",
+        kind: Kind::Index { total: 1 << 24, quick: 40_000, thorough: 1 << 24, f: colour::average_u8 },
+    });
+    Property {
+        id: "C19",
+        rule: "table checks enumerate every (API, arrangement) cell; elements are pairwise distinct opaque atoms, also distinct from zero/one/full (a case is non-trivial iff that holds); shuffle-indices: non-trivial iff some index >= 4; colour-<type>: components from a stratified generator (0, MAX, MIN, MAX/2, MAX/3, small, random / dyadic and random floats), non-trivial iff r,g,b,a pairwise distinct; mat-embed: non-trivial iff matrices have >= 3 distinct non-zero entries, are not symmetric, v has no zero lane and m*v, v*m, v differ; unit-table: non-trivial iff the expected vector has two different components",
+        assumptions: &[
+            "rustc and the proptest runner/shrinker are trusted",
+            "vectors are built and read through their public named fields, matrices through rows/cols (vkit::vk::MatN); that is the ground truth",
+            "parametricity: an element-moving function generic in T that is correct on pairwise distinct opaque terms is correct on all values",
+            "the 24 From impls, 24 swizzles/setters and 40 unit/direction names were enumerated by reading src/vec.rs of vek 0.17.1; an impl added later is not covered until listed",
+            "vek's matrix*vector product is the one verified by C01 (also cross-checked here against vkit::refmath)",
+            "integer average_rgb / signed inverted_rgb overflow is a documented caveat of vek ('integer overflows cause panics in debug mode'): the harness (overflow-checks on) requires the overflow panic there and the exact value everywhere else",
+        ],
+        checks,
+        max_discard_frac: 0.2,
+    }
 }
